@@ -12,7 +12,8 @@ from harness.core import gq, gz, gnat, gbool, glist, gstr
 
 HEADER = """From Coq Require Import ZArith List Bool String.
 From FrameModel Require Import Num.QcTac PB.Expr PB.Cnf PB.Amo PB.Robdd PB.Codify PB.Sat
-  RectSearch.Coords RectSearch.Names RectSearch.Encode RectSearch.Shapes RectSearch.SelectBox Cases.CmpC08.
+  RectSearch.Coords RectSearch.Names RectSearch.Encode RectSearch.Shapes RectSearch.SelectBox RectSearch.Spelling
+  Cases.CmpC08.
 Import ListNotations.
 Local Open Scope nat_scope."""
 
@@ -695,6 +696,9 @@ def run_impl(case):
         obs["selected_types"] = sorted({type(v).__name__ for c in selected for v in c[:4]})
         obs["ifile"] = [[[float(v) for v in b[nm][0]["dim"]], [[k, float(v)] for m in (b[nm][1]["mod"] or []) for k, v in m.items()]]
                         for b in ifile["Rectangles"] for nm in b]
+        obs["ifile_tags"] = [["".join(tag_of(v) for v in b[nm][0]["dim"]),
+                              "".join(tag_of(v) for m in (b[nm][1]["mod"] or []) for k, v in m.items())]
+                             for b in ifile["Rectangles"] for nm in b]
     # the store of the history: its decision variables are "b_<n>" names as well
     obs["mem0"] = mem_nodes(mem0_raw, nmap)
     if obs["keyerror"]:
@@ -760,7 +764,29 @@ def gcell(c, p):
     return f"(mkCell {gq(c[0])} {gq(c[1])} {gq(c[2])} {gq(c[3])} {gq(p)})"
 
 
+def gnum(q, tag):
+    """A written number for the model's reader (RectSearch/Spelling.v): int and numpy integers are NInt, float and
+    numpy.float64 NFloat of the exact value, -0.0 NNegZero."""
+    if tag in ("i", "I"):
+        return f"(NInt {gz(int(q))})"
+    if tag == "z":
+        return "NNegZero"
+    return f"(NFloat {gq(q)})"
+
+
+def tag_of(v):
+    """How a Python number met in the implementation's data is written (the inverse of [spelled])."""
+    import math
+    import numbers
+    if isinstance(v, numbers.Integral):
+        return "i"
+    return "z" if float(v) == 0 and math.copysign(1.0, float(v)) < 0 else "f"
+
+
 def gproblem(case):
+    if case.get("spell"):      # the problem as it was written, read by the model's read_problem
+        return "(read_problem " + glist(["(mkSCell " + " ".join(gnum(v, t) for v, t in zip(list(c) + [p], w)) + ")"
+                                         for c, p, w in zip(case["cells"], case["occ"], case["spell"])]) + ")"
     return glist([gcell(c, p) for c, p in zip(case["cells"], case["occ"])])
 
 
@@ -791,8 +817,13 @@ def effective(case, obs):
 
 
 def garects(obs):
-    return glist([f"(mkA {gq(d[0])} {gq(d[1])} {gq(d[2])} {gq(d[3])} "
-                  f"{glist(['(' + gstr(k) + ', ' + gq(v) + ')' for k, v in mods])})" for d, mods in obs["ifile"]])
+    """The parsed input file as select_box received it - every number as it is written there (int / float / -0.0) -
+    read by the model's read_arect."""
+    out = []
+    for (d, mods), (dt, mt) in zip(obs["ifile"], obs["ifile_tags"]):
+        ms = glist(["(" + gstr(k) + ", " + gnum(v, t) + ")" for (k, v), t in zip(mods, mt)])
+        out.append("(read_arect " + " ".join(gnum(v, t) for v, t in zip(d, dt)) + " " + ms + ")")
+    return glist(out)
 
 
 def to_coq(case, obs):
